@@ -112,10 +112,59 @@ class InterpCore(object):
         key = (module.name, name)
         if key in self.module_cache:
             return self.module_cache[key]
+        self.ensure_module_init(module)
+        if key in self.module_cache:
+            return self.module_cache[key]
         r = self.p.resolve_name(module, name)
         v = self.wrap_resolved(r, module, name, node)
         self.module_cache[key] = v
         return v
+
+    def ensure_module_init(self, module):
+        """import-time effects of a module, in source order: class decorators and top-level statements that call a
+        repository function or mutate a module-level container (registries filled while the module is imported)"""
+        done = self.__dict__.setdefault("_modules_inited", set())
+        if module.name in done or getattr(module, "tree", None) is None:
+            return
+        done.add(module.name)
+        effects = []
+        for st in module.tree.body:
+            if isinstance(st, ast.ClassDef) and st.decorator_list:
+                effects.append(st)
+            elif isinstance(st, ast.Expr) and isinstance(st.value, ast.Call):
+                root = st.value.func
+                while isinstance(root, (ast.Attribute, ast.Call, ast.Subscript)):
+                    root = root.func if isinstance(root, ast.Call) else root.value
+                if isinstance(root, ast.Name) and root.id in module.bindings and root.id != "__import__":
+                    b = self.p.resolve_name(module, root.id)
+                    if isinstance(b, (FuncInfo, ClassInfo)) or (isinstance(b, tuple) and b[0] == "assign"):
+                        effects.append(st)
+        if not effects:
+            return
+        menv = Env(module=module, label=module.name)
+        self.stack.append(menv)
+        saved_conds, self.path_conds = self.path_conds, []
+        saved_loops = getattr(self, "loop_stack", None)
+        if saved_loops is not None:
+            self.loop_stack = []
+        try:
+            for st in effects:
+                menv.at_line = getattr(st, "lineno", None)
+                if isinstance(st, ast.ClassDef):
+                    r = self.p.resolve_name(module, st.name)
+                    if not isinstance(r, ClassInfo) or r.node is not st:
+                        continue
+                    v = ClassV(r)
+                    for d in reversed(st.decorator_list):
+                        v = self.call(self.eval(d, menv), [v], {}, st, menv)
+                    self.module_cache[(module.name, st.name)] = v
+                else:
+                    self.eval(st.value, menv)
+        finally:
+            self.stack.pop()
+            self.path_conds = saved_conds
+            if saved_loops is not None:
+                self.loop_stack = saved_loops
 
     def wrap_resolved(self, r, module, name, node=None):
         if r is None:
@@ -171,6 +220,7 @@ class InterpCore(object):
                  "super", "round", "reversed", "open", "bool", "object", "Exception", "ValueError", "KeyError",
                  "NotImplementedError", "ImportError", "StopIteration", "AttributeError", "TypeError", "any", "all",
                  "map", "filter", "repr", "callable", "id", "type", "divmod", "pow", "setattr", "frozenset", "delattr",
+                 "staticmethod", "classmethod", "property",
                  "IndexError", "RuntimeError", "LookupError", "ZeroDivisionError", "OverflowError", "ArithmeticError",
                  "AssertionError", "OSError", "IOError", "FloatingPointError", "NameError", "UnicodeError", "BaseException")
 
